@@ -91,7 +91,7 @@ func (e *Engine) havocBase(st *State, elem types.Type, base *smt.Term) {
 
 var intrinsicNames = map[string]bool{"vAssume": true, "vAssert": true, "vRequires": true, "vEnsures": true, "vModifies": true,
 	"vNondet": true, "vOld": true, "vForall": true, "vInvariant": true, "vBody": true, "vStep": true, "vCallCount": true,
-	"vCallArg": true, "vSameSlice": true, "vFresh": true, "vSeparate": true, "vJoined": true, "vSame": true}
+	"vCallArg": true, "vSameSlice": true, "vFresh": true, "vSeparate": true, "vJoined": true, "vSame": true, "VSeparate": true, "vDistinctBacking": true}
 
 func constString(v ssa.Value) string {
 	if c, ok := v.(*ssa.Const); ok && c.Value != nil && c.Value.Kind() == constant.String {
@@ -237,6 +237,10 @@ func (e *Engine) intrinsic(st *State, fn *ssa.Function, name string, args []Valu
 		_, out := e.callValue(st, args[0], nil, args[0].T.Underlying().(*types.Signature), pos)
 		e.paths = saveP
 		return nil, out, true
+	case "vDistinctBacking":
+		// vDistinctBacking(a, b any): two slices (boxed in interfaces) live in different backing arrays
+		x, y := e.unboxAny(st, args[0]), e.unboxAny(st, args[1])
+		return boolV(c.Or(c.Ne(x.L[0], y.L[0]), c.Eq(x.L[0], e.k64(0)))), st, true
 	case "vSame":
 		// vSame(a, b): bit-for-bit equality of two values of the same type
 		acc := c.True()
@@ -244,7 +248,7 @@ func (e *Engine) intrinsic(st *State, fn *ssa.Function, name string, args []Valu
 			acc = c.And(acc, c.Eq(args[0].L[k], args[1].L[k]))
 		}
 		return boolV(acc), st, true
-	case "vSeparate":
+	case "vSeparate", "VSeparate":
 		// vSeparate(a, b): the two slices/strings live in different backing arrays
 		return boolV(c.Or(c.Ne(args[0].L[0], args[1].L[0]), c.Eq(args[0].L[0], e.k64(0)))), st, true
 	case "vFresh":
